@@ -12,7 +12,7 @@ if r['part'] == 'finite':
 elif r['part'] == 'range':
     p = R.check_range_domain(fggs, r['n'], r['probe'])
 elif r['part'] == 'binding':
-    p = R.check_binding(fggs, torch, r['type'], r['terminal'], r['fsizes'], r['pre'], r['domains'])
+    p = R.check_binding(fggs, torch, r['type'], r['terminal'], r['fsizes'], r['pre'], r['domains'], r.get('variant', 0))
 else:
     B = backend_float.make('viterbi', 'float32')
     B.scalar_of = staticmethod(lambda t: t.item())
